@@ -221,3 +221,72 @@ pub fn huge_step<E: SimEnv>(seed: u64, n: usize) -> Result<HugeOut, (String, Str
     }
     Ok(out)
 }
+
+// ---------------------------------------------------------------------------------------------------------------
+// Mass sweeps: one aggressor that has to execute against thousands of resting orders (C01: price-time order over the
+// whole sweep; C05: all resting orders queued at one time-stamp; C02: views after the sweep, nothing left crossed).
+// The expectation needs no reference engine: the resting side is sorted once by (price, queuing order).
+// ---------------------------------------------------------------------------------------------------------------
+pub fn mass_sweep<B: RealBook>(seed: u64, n: usize, tied: bool) -> Result<u64, (String, String)> {
+    let mut rng = Sm::derive(seed, 0x5357);
+    let tick = rng.range(1, 10) as u32;
+    let t0 = rng.below(1000);
+    let mut b = B::new(t0, tick, true);
+    let ask_side = rng.chance(0.5); // the resting side
+    let base = rng.range(100, 50_000);
+    let n_prices = rng.range(1, 4);
+    let mut t = t0;
+    let mut resting: Vec<(u32, usize, u32)> = Vec::with_capacity(n); // (price, id, vol)
+    let mut total: u64 = 0;
+    for i in 0..n {
+        if !tied {
+            t += 1;
+            b.set_time(t);
+        }
+        let off = rng.below(n_prices);
+        let k = if ask_side { base + off } else { base - off };
+        let price = (k * tick as u64) as u32;
+        let vol = rng.range(1, 3) as u32;
+        let id = b.create_place(!ask_side, vol, (i % 97) as u32, Some(price)).map_err(|e| ("harness".to_string(), e))?;
+        resting.push((price, id, vol));
+        total += vol as u64;
+    }
+    t += 1;
+    b.set_time(t);
+    // expected execution order: best price first, queuing order within a price
+    let mut order = resting.clone();
+    if ask_side {
+        order.sort_by_key(|x| (x.0, x.1));
+    } else {
+        order.sort_by_key(|x| (std::cmp::Reverse(x.0), x.1));
+    }
+    let extra = rng.range(1, 50) as u32;
+    let worst = if ask_side { ((base + n_prices) * tick as u64) as u32 } else { ((base - n_prices) * tick as u64) as u32 };
+    let agg = b.create_place(ask_side, (total as u32) + extra, 5, Some(worst)).map_err(|e| ("harness".to_string(), e))?;
+    let trades = b.trades();
+    if trades.len() != n {
+        return Err(("sweep_incomplete".into(), format!("an aggressor for the whole side of {} resting orders produced {} trades", n, trades.len())));
+    }
+    for (k, (tr, exp)) in trades.iter().zip(order.iter()).enumerate() {
+        if tr.passive != exp.1 || tr.price != exp.0 || tr.vol != exp.2 || tr.active != agg || tr.t != t {
+            return Err(("sweep_order".into(), format!("fill #{} of {}: {:?}, expected passive order {} at price {} for {}", k, n, tr, exp.1, exp.0, exp.2)));
+        }
+    }
+    let orders = b.orders();
+    if let Some(o) = orders.iter().find(|o| o.id != agg && (o.status != crate::model::FILLED || o.vol != 0 || o.end != t)) {
+        return Err(("sweep_record".into(), format!("resting order not filled by the sweep: {:?}", o)));
+    }
+    let a = &orders[agg];
+    if a.status != ACTIVE || a.vol != extra {
+        return Err(("sweep_record".into(), format!("aggressor after the sweep: {:?} (remainder {} expected to rest)", a, extra)));
+    }
+    let v = b.views();
+    let exp = crate::ops::recompute_views(&orders, tick, B::LEVELS);
+    if v != exp {
+        return Err(("views_after_sweep".into(), format!("published views differ from the order list after the sweep: bid_ask {:?} vs {:?}, volumes ({}, {}) vs ({}, {})", v.bid_ask, exp.bid_ask, v.bid_vol, v.ask_vol, exp.bid_vol, exp.ask_vol)));
+    }
+    if v.bid_vol > 0 && v.ask_vol > 0 && v.bid_ask.0 >= v.bid_ask.1 {
+        return Err(("crossed_book".into(), format!("{:?}", v.bid_ask)));
+    }
+    Ok(n as u64)
+}
